@@ -126,12 +126,56 @@ class GSym(LSym):
         if lo <= 0 <= hi: arms.append((tg.get(0, ins[4]), ("eq", v.d)))
         if hi > 0: arms.append((tg.get(1, ins[4]), ("gt", v.d)))
         return arms
+    def condbr_arms(self, fn, lab, c, ins):
+        """a two-way branch on the comparison of ONE recoding digit with a constant (the `if d > 0 {..} else if d < 0 {..}` form of a digit-sign
+        match) is executed side by side and merged at its join point, like the three-way `match d.cmp(&0)`"""
+        if c.k != "cmp" or c.a[0] not in ("eq", "ne", "lt", "le", "gt", "ge"): return None
+        d = self.ctx.resolve(c.a[1]) - self.ctx.resolve(c.a[2])
+        sv = self._single_var(d)
+        if sv is None or sv[0] not in self.digit_vars(): return None
+        if not self.acyclic_region(fn, lab, [ins[3], ins[4]]): return None
+        neg = {"eq": "ne", "ne": "eq", "lt": "ge", "ge": "lt", "gt": "le", "le": "gt"}
+        return [(ins[3], (c.a[0], d)), (ins[4], (neg[c.a[0]], d))]
+    def digit_vars(self):
+        n = sum(len(dd["vars"]) for dd in self.digits.values())
+        cache = self.__dict__.get("_dvars")
+        if cache is None or cache[0] != n:
+            vs = set()
+            for dd in self.digits.values():
+                for x in dd["vars"]: vs |= set(x.vars())
+            cache = (n, vs); self._dvars = cache
+        return cache[1]
     def _single_var(self, d):
         """d = +-v + c for one variable v  ->  (v, sign, c)"""
         items = [(m, c) for m, c in d.t.items() if m]
         if len(items) == 1 and len(items[0][0]) == 1 and items[0][1] in (1, -1):
             return items[0][0][0], items[0][1], d.cval()
         return None
+    def refine_by_decision(self, c, taken):
+        """a decided comparison of ONE digit variable with a constant narrows that variable's interval for the rest of the path
+        (the comparison itself is also kept as a path assumption by the caller)"""
+        if c.k != "cmp": return
+        op, a, b = c.a[0], self.ctx.resolve(c.a[1]), self.ctx.resolve(c.a[2])
+        d = a - b
+        sv = self._single_var(d)
+        if sv is None: return
+        v, sg, k = sv              # sg*v + k  <op>  0
+        if not taken: op = {"eq": "ne", "ne": "eq", "lt": "ge", "ge": "lt", "gt": "le", "le": "gt"}.get(op)
+        if op is None: return
+        if sg == -1:               # -v + k op 0  <=>  v rop k
+            op = {"lt": "gt", "gt": "lt", "le": "ge", "ge": "le"}.get(op, op); k = -k
+        # now: v + k op 0, i.e. v op -k
+        t = -k; lo, hi = self.ctx.bounds.get(v, (None, None))
+        if lo is None: return
+        if op == "eq": lo, hi = max(lo, t), min(hi, t)
+        elif op == "lt": hi = min(hi, t - 1)
+        elif op == "le": hi = min(hi, t)
+        elif op == "gt": lo = max(lo, t + 1)
+        elif op == "ge": lo = max(lo, t)
+        elif op == "ne":
+            if lo == t: lo += 1
+            if hi == t: hi -= 1
+        if lo <= hi: self.ctx.bounds[v] = (lo, hi)
     def enter_arm(self, desc):
         kind, d = desc
         cond = Cond("cmp", kind, d, ZERO)
@@ -143,12 +187,19 @@ class GSym(LSym):
         if sv is not None:
             v, sg, c = sv
             lo, hi = self.ctx.bounds[v]; tok = (v, (lo, hi))
-            # sg*v + c  (kind) 0
-            if kind == "eq": nl = nh = (-c) * sg if sg == 1 else c
-            elif (kind == "gt") == (sg == 1):      # v > -c (sg=1,gt)  or  -v + c < 0 -> v > c (sg=-1,lt)
-                b = (-c if sg == 1 else c) + 1; nl, nh = max(lo, b), hi
-            else:
-                b = (-c if sg == 1 else c) - 1; nl, nh = lo, min(hi, b)
+            # sg*v + c  (kind) 0   <=>   v (kind') t
+            t = -c if sg == 1 else c
+            k2 = kind if sg == 1 else {"lt": "gt", "gt": "lt", "le": "ge", "ge": "le"}.get(kind, kind)
+            nl, nh = lo, hi
+            if k2 == "eq": nl, nh = max(lo, t), min(hi, t)
+            elif k2 == "gt": nl = max(lo, t + 1)
+            elif k2 == "ge": nl = max(lo, t)
+            elif k2 == "lt": nh = min(hi, t - 1)
+            elif k2 == "le": nh = min(hi, t)
+            elif k2 == "ne":
+                if lo == t: nl = lo + 1
+                if hi == t: nh = hi - 1
+            if nl > nh: nl, nh = lo, hi          # infeasible arm: the merged indicator is constant 0, the arm's value is irrelevant
             self.ctx.bounds[v] = (nl, nh)
             if hasattr(self.ctx, "_ivcache"): self.ctx._ivcache = {}
         return tok
@@ -262,6 +313,7 @@ class GSym(LSym):
         for ds, v in groups:
             kinds = frozenset(d[0] for d in ds); dd = ds[0][1]
             if len(ds) == len(per): out.append((ONE, v)); continue
+            if len(ds) == 1: out.append((self.boolvar(Cond("cmp", ds[0][0], dd, ZERO)), v)); continue
             kind = {frozenset(["lt"]): "lt", frozenset(["eq"]): "eq", frozenset(["gt"]): "gt", frozenset(["lt", "eq"]): "le",
                     frozenset(["eq", "gt"]): "ge", frozenset(["lt", "gt"]): "ne"}[kinds]
             out.append((self.boolvar(Cond("cmp", kind, dd, ZERO)), v))
